@@ -32,6 +32,26 @@ CHECKS['C14'] = dict(
          'arguments. Content equality and exactly-once destruction are not decided by this check.',
     note='Trusted: clang lowering, irdump, absint/lin, the argument contracts in checks/c14.py (iterators of erase point into the '
          'container, range arguments delimit one array). N is instantiated at 4.')
+CHECKS['C04'] = dict(
+    category='other', design_ref='DESIGN.md 5/C04',
+    technique='abstract interpretation over LLVM IR with a ghost frame-grammar automaton on the output stores; constant alphabet agreement',
+    text='For the configurable encoder (symbolic marker alphabet) and the legacy encoder: every byte stored between the frame '
+         'delimiters is either an escape pair or provably different from every marker (incl. the CRC byte), first/last byte are '
+         'START/STOP, the return value is the number of bytes written, the CRC seed is 0xFF, all stores stay within 2n+4 bytes and '
+         'the self-sizing overloads allocate at least that; gstuff_byte realises the inverse of the escape table proved for the '
+         'receiver; the shipped alphabets are consistent. Decides these clauses for all payloads; decode(encode(p)) == p as a '
+         'whole is not decided.',
+    note='Trusted: clang lowering, irdump, absint/lin, the std::vector<uint8_t> summary (resize/operator[]), igris_strmcrc8 '
+         'summarised as a one-byte update. Size bound proved for the single-buffer entry point (iovec count 1).')
+CHECKS['C05'] = dict(
+    category='other', design_ref='DESIGN.md 5/C05',
+    technique='abstract interpretation over LLVM IR: sline contract + per-(state, byte class) postconditions of the receiver automata',
+    text='For gstuff_autorecv::newchar and the legacy receiver, for every automaton state, input byte, marker alphabet (symbolic) '
+         'and buffer capacity: all buffer writes in bounds and only through sline_putchar, at most one byte stored per input, a '
+         'refused byte gives OVERFLOW, NEWPACKAGE only with zero CRC residue and with the CRC stripped, start marker inside a frame '
+         'restarts, each escape code decodes to its marker, invalid escape is an error. Resynchronisation over whole streams is '
+         'not decided.',
+    note='Trusted: clang lowering, irdump, absint/lin, contracts in checks/c05.py; igris_strmcrc8 summarised (its value is C17).')
 NA_REASON = 'check not built yet (work in progress; see DESIGN.md section 9)'
 
 m = {"version": 1,
